@@ -15,7 +15,7 @@ queue properties reuse them).
 
 Nothing here touches /repo: all patches are module-namespace assignments made
 from outside and undone on exit."""
-import os, pickle, shutil, tempfile
+import os, pickle, re, shutil, tempfile
 import gevent
 from gevent.event import AsyncResult
 
@@ -296,6 +296,46 @@ def _rb(v):
     raise TypeError('redis: cannot encode %r' % type(v))
 
 
+def redis_glob(pattern):
+    """KEYS takes a glob-style pattern (redis stringmatchlen): * ? [abc] [^a] [a-z] and \\x"""
+    out = b''
+    i, n = 0, len(pattern)
+    while i < n:
+        c = pattern[i:i + 1]
+        if c == b'*':
+            out += b'.*'
+        elif c == b'?':
+            out += b'.'
+        elif c == b'[':
+            j = i + 1
+            neg = pattern[j:j + 1] == b'^'
+            if neg:
+                j += 1
+            cls = b''
+            while j < n and pattern[j:j + 1] != b']':
+                if pattern[j:j + 1] == b'\\' and j + 1 < n:
+                    j += 1
+                    cls += re.escape(pattern[j:j + 1])
+                elif pattern[j + 1:j + 2] == b'-' and j + 2 < n and pattern[j + 2:j + 3] != b']':
+                    lo, hi = pattern[j:j + 1], pattern[j + 2:j + 3]
+                    if lo > hi:
+                        lo, hi = hi, lo
+                    cls += re.escape(lo) + b'-' + re.escape(hi)
+                    j += 2
+                else:
+                    cls += re.escape(pattern[j:j + 1])
+                j += 1
+            out += (b'[^' if neg else b'[') + cls + b']' if cls else (b'(?s:.)' if neg else b'(?!)')
+            i = j
+        elif c == b'\\' and i + 1 < n:
+            i += 1
+            out += re.escape(pattern[i:i + 1])
+        else:
+            out += re.escape(c)
+        i += 1
+    return re.compile(b'(?s)' + out + b'\\Z')
+
+
 class FakeRedis(object):
     """In-memory stand-in for redis.StrictRedis (decode_responses=False): keys
     and values come back as bytes.  Only what RedisStorage calls."""
@@ -381,13 +421,12 @@ class FakeRedis(object):
 
     def keys(self, pattern='*'):
         self._cmd('keys', pattern)
-        p = _rb(pattern)
-        assert p.endswith(b'*') and b'*' not in p[:-1]
-        # KEYS order is unspecified: hashes in ascending id order, other keys (the list) last
+        rx = redis_glob(_rb(pattern))
+        # KEYS order is unspecified: keys ending in digits in ascending numeric order, the others last
         def order(k):
-            tail = k.rsplit(b':', 1)[-1]
-            return (0, int(tail), k) if tail.isdigit() else (1, 0, k)
-        return sorted((k for k in self.data.keys() if k.startswith(p[:-1])), key=order)
+            m = re.search(rb'(\d+)$', k)
+            return (0, int(m.group(1)), k) if m else (1, 0, k)
+        return sorted((k for k in self.data.keys() if rx.match(k)), key=order)
 
     def rpush(self, key, *values):
         self._cmd('rpush', _rb(key))
